@@ -33,7 +33,15 @@ for d in sorted(glob.glob(os.path.join(V, "seeded", "*"))):
         "source": "independent sub-agent given only the property text and a scratch worktree" if not os.path.exists(os.path.join(d, "HANDMADE")) else "hand-made during development",
     }
     json.dump(meta, open(os.path.join(d, "meta.json"), "w"), indent=1)
-    caught = [f"{p}: {r['fingerprints'].rstrip(';')}" for p, r in res.items() if r.get("rc") == 1]
+    def norm(fps):
+        out = []
+        for f in fps.split(";"):
+            if f.endswith("):"):  # older driver versions quoted the record inside a panic message
+                f = f[:-2] if f.count(")") > f.count("(") else f[:-1]
+            if f and f not in out:
+                out.append(f)
+        return ";".join(out)
+    caught = [f"{p}: {norm(r['fingerprints'])}" for p, r in res.items() if r.get("rc") == 1]
     missed = [p for p, r in res.items() if r.get("rc") == 0]
     rows.append((name, ", ".join(files).replace("go/", ""), "; ".join(caught) if caught else "—", ", ".join(missed) if missed else ""))
 print("| change | files | caught by (quick check: fingerprints) | not caught by |")
